@@ -159,7 +159,7 @@ def run(pid, tier, seed, replay=None):
         "the recorded-trace direction",
         "TLC results hold for the stated small constants; larger parameters are sampled only",
     ]
-    vlib.build_harness()
+    vlib.build_harness(["toplink"])
     if replay:
         return do_replay(ck, replay)
     w = vlib.workdir(f"{pid}_files")
